@@ -22,3 +22,21 @@ func VerifC10Backoff(min, max time.Duration, attempt int) (d time.Duration, pani
 // VerifC10ErrUnreplayable is the error Request.Do returns up front for a retryable request
 // whose body cannot be replayed.
 var VerifC10ErrUnreplayable = errRetryableWithUnReplayableBody
+
+// VerifC10RetryFuncs returns the retry conditions and hooks a request currently holds (the
+// slices themselves: len and cap are those of the request's own option); ok=false when the
+// request has no retry option.
+func VerifC10RetryFuncs(r *Request) (conds []RetryConditionFunc, hooks []RetryHookFunc, ok bool) {
+	if r.retryOption == nil {
+		return nil, nil, false
+	}
+	return r.retryOption.RetryConditions, r.retryOption.RetryHooks, true
+}
+
+// VerifC10ClientRetryFuncs is VerifC10RetryFuncs for the client-level option.
+func VerifC10ClientRetryFuncs(c *Client) (conds []RetryConditionFunc, hooks []RetryHookFunc, ok bool) {
+	if c.retryOption == nil {
+		return nil, nil, false
+	}
+	return c.retryOption.RetryConditions, c.retryOption.RetryHooks, true
+}
